@@ -78,6 +78,18 @@ pub fn run(id: &str) -> i32 {
             let every = (0..=max_bw).map(|a| scan(a, &|r| { let w = lw(a + r); let iv = if r > w { a + r - w + 1 } else { a + 1 }; own_rbf(a + 1) + oth(iv) + 1 }).unwrap()).max().unwrap();
             lib == Some(24) && every == 25
         }
+        // KF11: eager wcet::Curve::extrapolate RAISES bounds beyond the extended prefix (whole-prefix repetition of the longer prefix)
+        "KF11" => {
+            let plain = wcet::Curve::new(vec![s(5), s(6), s(7)]);
+            let mut e = plain.clone(); e.extrapolate(5);
+            plain.cost_of_jobs(5) == s(13) && e.cost_of_jobs(5) == s(17)
+        }
+        // KF12: eager arrival::Curve::extrapolate yields MORE arrivals than the un-extrapolated curve beyond the extended prefix
+        "KF12" => {
+            let plain = Curve::new(vec![d(0), d(1), d(2)]);
+            let mut e = plain.clone(); e.extrapolate(d(3));
+            e.number_arrivals(d(4)) > plain.number_arrivals(d(4))
+        }
         _ => { eprintln!("unknown witness {}", id); return 2; }
     };
     println!("{} {}", id, if reproduces { "reproduces" } else { "does not reproduce" });
